@@ -131,48 +131,76 @@ func (ai *AI) Run(fn *ssa.Function, entry *aiState) []retState {
 				s.vals[k] = v
 			}
 		}
-		dead := false
-		for _, in := range b.Instrs {
-			if _, ok := in.(*ssa.Phi); ok {
+		// instruction loop with continuations: an inlined validator-like callee (several returns, a verdict among its
+		// results) forks the state, one continuation per outcome, so that "err == nil" stays tied to what the callee
+		// established about its arguments on that path
+		type cont struct {
+			idx int
+			s   *aiState
+		}
+		conts := []cont{{0, s}}
+		for len(conts) > 0 && ai.budget > 0 {
+			ct := conts[len(conts)-1]
+			conts = conts[:len(conts)-1]
+			s := ct.s
+			dead := false
+			for idx := ct.idx; idx < len(b.Instrs); idx++ {
+				in := b.Instrs[idx]
+				if _, ok := in.(*ssa.Phi); ok {
+					continue
+				}
+				if ai.OnInstr != nil {
+					ai.OnInstr(in, s)
+				}
+				var pre *aiState
+				if _, isCall := in.(*ssa.Call); isCall && ai.Inline != nil {
+					pre = s.clone()
+				}
+				ai.forks = nil
+				if !ai.step(fn, in, s) {
+					dead = true
+					break
+				}
+				if len(ai.forks) > 0 && pre != nil {
+					call := in.(*ssa.Call)
+					for _, fk := range ai.forks {
+						s2 := pre.clone()
+						ai.applyOutcome(call, fk, s2)
+						conts = append(conts, cont{idx + 1, s2})
+					}
+					ai.forks = nil
+				}
+				switch x := in.(type) {
+				case *ssa.Return:
+					rets = append(rets, retState{x, s})
+					if ai.OnReturn != nil {
+						ai.OnReturn(fn, x, s)
+					}
+				case *ssa.Panic:
+					// go/ssa's synthetic "blocking select matched no case" has no position and is unreachable
+					if x.Pos().IsValid() {
+						ai.report("panic", x.Pos(), fn, "an explicit panic is reachable")
+					}
+				}
+			}
+			if dead {
 				continue
 			}
-			if ai.OnInstr != nil {
-				ai.OnInstr(in, s)
-			}
-			if !ai.step(fn, in, s) {
-				dead = true
-				break
-			}
-			switch x := in.(type) {
-			case *ssa.Return:
-				rets = append(rets, retState{x, s})
-				if ai.OnReturn != nil {
-					ai.OnReturn(fn, x, s)
-				}
-			case *ssa.Panic:
-				// go/ssa's synthetic "blocking select matched no case" has no position and is unreachable
-				if x.Pos().IsValid() {
-					ai.report("panic", x.Pos(), fn, "an explicit panic is reachable")
-				}
-			}
-		}
-		if dead {
-			continue
-		}
-		switch len(b.Succs) {
-		case 1:
-			n := prune(s)
-			n.pred = b
-			work = append(work, item{b.Succs[0], n})
-		case 2:
-			iff := b.Instrs[len(b.Instrs)-1].(*ssa.If)
-			for i, succ := range b.Succs {
-				n := s.clone()
+			switch len(b.Succs) {
+			case 1:
+				n := prune(s)
 				n.pred = b
-				if ai.assume(iff.Cond, i == 0, n) {
-					n = prune(n)
+				work = append(work, item{b.Succs[0], n})
+			case 2:
+				iff := b.Instrs[len(b.Instrs)-1].(*ssa.If)
+				for i, succ := range b.Succs {
+					n := s.clone()
 					n.pred = b
-					work = append(work, item{succ, n})
+					if ai.assume(iff.Cond, i == 0, n) {
+						n = prune(n)
+						n.pred = b
+						work = append(work, item{succ, n})
+					}
 				}
 			}
 		}
@@ -815,7 +843,7 @@ func (ai *AI) call(fn *ssa.Function, call *ssa.Call, s *aiState) {
 		if strings.HasPrefix(name, "Get") && isProtoPkg(pkg) {
 			safe = true // protobuf-generated getters check the receiver
 		}
-		if !safe && len(cal.Blocks) == 0 {
+		if !safe && len(cal.Blocks) == 0 && isProtoMsgPtr(com.Args[0].Type()) {
 			ai.report("nilderef", call.Pos(), fn, "method "+name+" is called on a request sub-message that may be absent ("+args[0].Loc+")")
 		}
 	}
@@ -836,6 +864,11 @@ func (ai *AI) call(fn *ssa.Function, call *ssa.Call, s *aiState) {
 		return
 	case pkg == "time" && name == "Now":
 		res = &AV{K: 't', Zero: tNo}
+		return
+	case pkg == "errors" && name == "New", pkg == "fmt" && name == "Errorf",
+		strings.HasSuffix(pkg, "google.golang.org/grpc/status") && (name == "Error" || name == "Errorf"):
+		// constructors of errors never return nil (status.Error does for codes.OK only, which C09.8 excludes)
+		res = &AV{K: 'p', Nil: tNo, Taint: taint}
 		return
 	case strings.HasPrefix(name, "isValid") && strings.HasSuffix(name, "Name") && ai.c.inModule(cal) && len(args) == 1:
 		// confirmed from the bodies: four non-empty segments => the whole string is non-empty
@@ -933,7 +966,50 @@ func (ai *AI) inline(cal *ssa.Function, call *ssa.Call, args []*AV, s *aiState) 
 		}
 	}
 	// free variables of a closure: nothing to bind, locations are keyed by the parent's cells
+	savedForks := ai.forks
 	rets := ai.Run(cal, entry)
+	ai.forks = savedForks
+	// a validator-like callee: keep its outcomes apart (first one continues in place, the others fork)
+	if verdictLike(cal) && len(rets) >= 2 && len(rets) <= 6 {
+		var outs []outcome
+		for _, r := range rets {
+			ret := r.ret
+			var v *AV
+			if len(ret.Results) == 1 {
+				v = ai.val(ret.Results[0], r.s).clone()
+			} else if len(ret.Results) > 1 {
+				v = &AV{K: 'S', F: map[string]*AV{}}
+				for i, rv := range ret.Results {
+					v.F[string(rune('0'+i))] = ai.val(rv, r.s).clone()
+				}
+			}
+			if v == nil {
+				continue
+			}
+			v.Loc = ""
+			o := outcome{val: v, cal: cal, params: map[int]*AV{}, mem: map[string]*AV{}}
+			for i, p := range cal.Params {
+				if pv := r.s.vals[p]; pv != nil && pv.K != 'p' {
+					o.params[i] = pv.clone()
+				}
+				if i < len(args) && args[i] != nil && args[i].K == 'p' {
+					pk := "P:" + cal.Name() + "." + p.Name()
+					ck := ai.ptrKey(call.Call.Args[i], s)
+					for k, mv := range r.s.mem {
+						if strings.HasPrefix(k, pk+".") {
+							o.mem[ck+k[len(pk):]] = mv
+						}
+					}
+				}
+			}
+			outs = append(outs, o)
+		}
+		if len(outs) >= 2 {
+			ai.applyOutcome(call, outs[0], s)
+			ai.forks = append(ai.forks, outs[1:]...)
+			return outs[0].val
+		}
+	}
 	var out *AV
 	for _, r := range rets {
 		ret := r.ret
@@ -959,6 +1035,47 @@ func (ai *AI) inline(cal *ssa.Function, call *ssa.Call, args []*AV, s *aiState) 
 	}
 	out.Loc = ""
 	return out
+}
+
+// outcome: one way an inlined callee returned: its result and what it established about its arguments.
+type outcome struct {
+	val    *AV
+	cal    *ssa.Function
+	params map[int]*AV       // refined facts about non-pointer arguments, by parameter index
+	mem    map[string]*AV    // refined facts about memory reached through pointer arguments (caller's keys)
+}
+
+func (ai *AI) applyOutcome(call *ssa.Call, o outcome, s *aiState) {
+	s.vals[call] = o.val
+	for i, pv := range o.params {
+		if i < len(call.Call.Args) {
+			a := call.Call.Args[i]
+			cur := ai.val(a, s)
+			nv := pv.clone()
+			if cur != nil {
+				nv.Loc, nv.Link = cur.Loc, cur.Link
+			}
+			ai.setFact(a, nv, s)
+		}
+	}
+	for k, v := range o.mem {
+		s.mem[k] = v
+	}
+}
+
+// verdictLike: the callee reports a verdict — a bool or an error among its results.
+func verdictLike(f *ssa.Function) bool {
+	res := f.Signature.Results()
+	for i := 0; i < res.Len(); i++ {
+		t := res.At(i).Type()
+		if isErrorType(t) {
+			return true
+		}
+		if bt, ok := t.Underlying().(*types.Basic); ok && bt.Kind() == types.Bool {
+			return true
+		}
+	}
+	return false
 }
 
 func isProtoMsgPtr(t types.Type) bool {
